@@ -47,6 +47,7 @@ COQ_HEADER = ("From Coq Require Import List NArith ZArith.\nFrom Arc Require Imp
 SIG_BLOB = "json-binary-cell-not-utf8"
 SIG_HUGE = "json-hugeint-39-digits-rounded"
 SIG_UHUGE = "uhugeint-above-2^127-exported-negative"
+SIG_CAST = "decimal-scale0-cell-outside-[-2^63,2^63-2]-fails-the-int64-cast (msgpack 500 / Arrow IPC truncated 200)"
 
 I64 = (-2 ** 63, 2 ** 63 - 1)
 RANGES = {"int8": (-128, 127), "int16": (-32768, 32767), "int32": (-2 ** 31, 2 ** 31 - 1), "int64": I64,
@@ -940,7 +941,7 @@ def e2e_value(rng, t):
         lo, hi = RANGES[SQL_INT[t]]
         return rng.choice(int_edges(lo, hi) + [rng.randint(lo, hi)])
     if t == "HUGEINT":
-        return rng.choice([0, 5, -5, 2 ** 63 - 1, -2 ** 63, 2 ** 63, -2 ** 63 - 1, 10 ** 38 - 1, 10 ** 38, -(10 ** 38), 2 ** 127 - 1, -2 ** 127 + 1, rng.randint(-2 ** 62, 2 ** 62)])
+        return rng.choice([0, 5, -5, 2 ** 63 - 1, 2 ** 63 - 2, -2 ** 63, 2 ** 63, -2 ** 63 - 1, 10 ** 38 - 1, 10 ** 38, -(10 ** 38), 2 ** 127 - 1, -2 ** 127 + 1, rng.randint(-2 ** 62, 2 ** 62)])
     if t == "UHUGEINT":
         return rng.choice([0, 7, 2 ** 63 - 1, 2 ** 64, 10 ** 38 - 1, 2 ** 127 - 1, 2 ** 127, 2 ** 128 - 1])
     if t == "DOUBLE":
@@ -1185,14 +1186,21 @@ def check_e2e(c, o):
             return
         probs.append((fmt, k if (k in sig_ok) else None, "%s %r %s" % (t, v if not isinstance(v, bytes) else v.hex(), cellprob)))
 
-    def fits_i64(t, v):
-        if v is None or t not in ("HUGEINT", "UHUGEINT", "DECIMAL(38,0)"):
+    # Documented conversion limit of the msgpack / Arrow IPC paths (normalizeDecimalSchema +
+    # castDecimalBatch -> arrow compute.CastArray with SafeCastOptions): a decimal(x,0) column
+    # (HUGEINT, UHUGEINT, DECIMAL(p,0), SUM over integers) is cast to int64 and the request FAILS
+    # (msgpack: drain error / HTTP 500; Arrow IPC: headers already committed, HTTP 200 with a stream
+    # that carries the schema and no further rows) iff some cell is outside
+    # [-2^63, 2^63-2].  The upper bound excludes MaxInt64 itself because arrow-go v18.6.0
+    # decimalToIntImpl tests `v.GreaterEqual(max)` (third-party off-by-one, not Arc code).
+    def fits_cast(t, v):
+        if v is None or t not in ("HUGEINT", "UHUGEINT", "DECIMAL(38,0)", "DECIMAL(18,0)"):
             return True
         n = int(v)
         if t == "UHUGEINT" and n >= 2 ** 127:
             n -= 2 ** 128                       # what DuckDB's decimal(38,0) export carries
-        return I64[0] <= n <= I64[1]
-    out_of_i64 = not all(fits_i64(t, v) for r in rows for t, v in zip(types, r))
+        return I64[0] <= n <= I64[1] - 1
+    out_of_i64 = not all(fits_cast(t, v) for r in rows for t, v in zip(types, r))
 
     def check_json(label, body, rws):
         try:
@@ -1216,7 +1224,7 @@ def check_e2e(c, o):
 
     def check_mp(label, body, rws, err):
         if err or not body:
-            sig = "hugeint-out-of-int64-is-an-error" if out_of_i64 else None
+            sig = SIG_CAST if out_of_i64 else None
             probs.append((label, sig, "no body: %s" % (err or "empty")))
             return
         try:
@@ -1242,10 +1250,10 @@ def check_e2e(c, o):
         if o.get("httpmpst") == 200:
             check_mp("http-msgpack", hx(o.get("httpmp")), rows, None)
         else:
-            probs.append(("http-msgpack", "hugeint-out-of-int64-is-an-error" if out_of_i64 else None, "status %r" % o.get("httpmpst")))
+            probs.append(("http-msgpack", SIG_CAST if out_of_i64 else None, "status %r" % o.get("httpmpst")))
         av = o.get("arrvals")
         if o.get("httparrst") != 200 or o.get("httparrerr") or (av is None and rows):
-            probs.append(("http-arrow", "hugeint-out-of-int64-is-an-error" if out_of_i64 else None,
+            probs.append(("http-arrow", SIG_CAST if out_of_i64 else None,
                           "status %r %s" % (o.get("httparrst"), (o.get("httparrerr") or "")[:200])))
         else:
             av = av or []
@@ -1397,8 +1405,9 @@ def run(res, tier, seed):
     expl["unexplained_count"] = len(expl["unexplained"])
     expl["unexplained"] = expl["unexplained"][:5]
     expl["note"] = ("SUPPORTING EXPLORATION, NOT PROOF: Arrow arrays, DuckDB's Arrow export, ValueStr/decimal text and the Arrow IPC writer are oracles; "
-                    "documented conversions accepted: non-finite floats -> JSON null, decimal(x,0) -> int64 and decimal(x,y>0) -> nearest float64 on the "
-                    "msgpack/Arrow paths, types without a native encoder -> Arrow ValueStr text")
+                    "documented conversions accepted: non-finite floats -> JSON null, decimal(x,0) -> int64 (the request fails when a cell is outside "
+                    "[-2^63, 2^63-2]; MaxInt64 itself is rejected by arrow-go's decimalToIntImpl `GreaterEqual(max)`) and decimal(x,y>0) -> float64 within 2 ulp "
+                    "of the nearest double on the msgpack/Arrow paths, types without a native encoder -> Arrow ValueStr text")
     res.cov["oracle_half_exploration"] = expl
 
     for sig, hits in sorted(known_hits.items()):
